@@ -145,7 +145,10 @@ def gen_plan(S, index, tier):
             for rt in rts:
                 lh = f'L{nl}'
                 nl += 1
-                events.append({'act': 'open', 'out': lh, 'group': g, 'args': a, 'rt': rt, 'client': 0, 'protein': prot})
+                # the protein goes in as the caller's annotation object or in its string form (both documented); the
+                # reference spans are asked for in either form as well
+                events.append({'act': 'open', 'out': lh, 'group': g, 'args': a, 'rt': rt, 'client': 0, 'protein': prot,
+                               'src': S.pick(['ann', 'ann', 'str']), 'span_src': S.pick(['ann', 'ann', 'str'])})
                 if 'interleave' in faults or 'abandon' in faults:
                     open_l.append(lh)
                 else:
@@ -321,6 +324,9 @@ def _do_open(run, ev_i, ev):
     pr = run.prot[ph]
     # expected spans: the same call with return_type='span' on a fresh private twin (spans are computed eagerly)
     twin = N.denorm(pr['nf'])
+    if ev.get('span_src') == 'str':
+        twin = twin.serialize()
+        out.probes['spans_from_string_form'] += 1
     st = random.getstate()
     try:
         spans = [tuple(s) for s in _call(pt, twin, a, 'span')]
@@ -330,7 +336,11 @@ def _do_open(run, ev_i, ev):
     finally:
         random.setstate(st)
     try:
-        gen = _call(pt, pr['p'], a, rt)
+        if ev.get('src') == 'str':
+            out.probes['protein_in_string_form'] += 1
+            gen = _call(pt, pr['p'].serialize(), a, rt)
+        else:
+            gen = _call(pt, pr['p'], a, rt)
     except Exception as e:
         out.record([ev_i, N.norm_exc(e)])
         if span_err is None:
